@@ -10,7 +10,7 @@ from .C13 import site_class
 
 ID = "C10"
 LEVEL = "fault_enumeration"
-RULE = ("the 23 (start state, call) cases of C13 (store_object new / duplicate / empty content, first / additional "
+RULE = ("the 25 (start state, call) cases of C13 (store_object new / duplicate / empty content, first / additional "
         "pid, cid with a list but no object; tag_object; delete_object sole / shared reference, with metadata, "
         "missing object; store_metadata create / overwrite; delete_metadata one / all; bystander pids share the "
         "subject's object and carry metadata; thorough: each case in 5 identifier / configuration variants - pid lengths "
